@@ -23,7 +23,7 @@ ASSUMPTIONS = {
 REQUIRED = {
     "C04": ["programs_loaded", "renderings_compared", "pseudo_groups_judged", "inline_labels_on_expanding_pseudo", "label_refs_checked", "label_at_end", "offset_refs"],
     "C05": ["data_images_compared", "indexed_accesses_run", "zero_indexed", "li_constants_run", "li_with_carry", "doc_example", "segment_orders_compared", "address_sweep_targets"],
-    "C14": ["round_trips", "listing_round_trips", "mn_jal", "mn_csrrw", "mn_sw", "mn_lui", "mn_ebreak"],
+    "C14": ["round_trips", "listing_round_trips", "mn_jal", "mn_csrrw", "mn_sw", "mn_lui", "mn_ebreak", "listings_after_write_instruction", "error_messages_checked", "pipeline_view_texts_checked"],
 }
 
 
@@ -33,7 +33,7 @@ def plan(prop, tier, seed):
         return [{"kind": "directed", "shard": 0}] + [{"kind": "ast", "n": 28 if q else 1000, "renders": 4 if q else 6, "shard": i} for i in range(15)]
     if prop == "C05":
         return [{"kind": "doc", "shard": 0}] + [{"kind": "li_sweep", "shard": i, "of": 12} for i in range(12)] + [{"kind": "data", "n": 22 if q else 700, "shard": i} for i in range(14)] + [{"kind": "addr_sweep", "shard": i, "of": 6} for i in range(6)] + [{"kind": "li", "n": 14 if q else 450, "shard": i} for i in range(14 if q else 15)]
-    return [{"kind": "rt", "n": 12 if q else 400, "shard": i} for i in range(10 if q else 15)] + [{"kind": "rt_regs", "shard": 0}] + [{"kind": "listing", "n": 12 if q else 300, "shard": i} for i in range(4)]
+    return [{"kind": "rt", "n": 12 if q else 400, "shard": i} for i in range(10 if q else 15)] + [{"kind": "rt_regs", "shard": 0}] + [{"kind": "listing", "n": 12 if q else 300, "shard": i} for i in range(4)] + [{"kind": "outlets", "n": 60 if q else 1500, "shard": i} for i in range(3 if q else 8)]
 
 
 # --------------------------------------------------------------------------------------- helpers
@@ -536,6 +536,77 @@ def run_rt_case(case, res):
             res.nontrivial(h64([o.mnemonic, f, 4 * k]))
 
 
+def run_outlets_case(case, res):
+    """the other outlets of the printed instruction text: (a) listing of a memory filled and PATCHED through the
+    public write_instruction() with listing requests in between, (b) the pipeline view (instruction text shown for
+    the fetch stage) while stepping, (c) the error message of a run-time failure.  Every text must be the text that
+    re-assembles, at the address it is shown for, to the instruction stored there."""
+    from ..common import make_riscv as mk, install_program, set_regs, preload_mem, build_instr
+    from architecture_simulator.simulation.runtime_errors import InstructionExecutionException
+
+    prog = case["prog"]
+    for mode in ("single", "five"):
+        sim = mk(mode)
+        im = sim.state.instruction_memory
+        objs = {}
+        # (a) write_instruction one by one, listing requested in between, a few instructions patched in place
+        for i, d in enumerate(prog):
+            o = build_instr(d, 4 * i)
+            im.write_instruction(4 * i, o)
+            objs[4 * i] = o
+            if i % 3 == 0:
+                im.get_representation()
+        for (i, d) in case["patches"]:
+            if i < len(prog):
+                o = build_instr(d, 4 * i)
+                im.get_representation()
+                im.write_instruction(4 * i, o)
+                objs[4 * i] = o
+        lst = dict(im.get_representation())
+        res.count("listings_after_write_instruction")
+        for a, o in objs.items():
+            if lst.get(a) != repr(o):
+                res.violation("C14", "listing-stale", "%s mode: after write_instruction() the listing shows %r at address %d, the instruction stored there prints as %r" % (mode, lst.get(a), a, repr(o)), case)
+                return
+        # the listing text re-assembles to the stored instructions
+        try:
+            s2 = load("\n".join(lst[a] for a in sorted(lst)))
+        except Exception as e:
+            res.violation("C14", "print-not-assemblable", "listing of a directly written program does not assemble: %r" % (e,), case)
+            return
+        for a, o in objs.items():
+            r = s2.state.instruction_memory.read_instruction(a)
+            if type(r) is not type(o) or fields(r) != fields(o):
+                res.violation("C14", "round-trip", "address %d: %r re-assembles to %r" % (a, o, r), case)
+                return
+        # (b) + (c): run
+        set_regs(sim, case["regs"])
+        preload_mem(sim, case["mem"])
+        ids = ("InstructionMemoryInstrText", "InstructionReadAddressText") if mode == "five" else ("instr-mem-instr-text", "instr-mem-read-addr-text")
+        k = 0
+        while not sim.is_done() and k < 120:
+            try:
+                sim.step()
+            except InstructionExecutionException as e:
+                res.count("error_messages_checked")
+                txt, a = e.instruction_repr, e.address
+                if not txt or a not in lst or lst[a] != txt:
+                    res.violation("C14", "error-message-text", "%s mode: error message prints %r for address %r; that text does not assemble to the instruction at that address (listing: %r)" % (mode, txt, a, lst.get(a) if a in lst else None), case)
+                    return
+                break
+            except Exception:
+                break
+            k += 1
+            vals = dict((i_, v) for (i_, _k, v) in (sim.get_riscv_five_stage_svg_update_values() if mode == "five" else sim.get_riscv_single_stage_svg_update_values()))
+            txt, a = vals.get(ids[0]), vals.get(ids[1])
+            if txt and a not in (None, ""):
+                res.count("pipeline_view_texts_checked")
+                if lst.get(int(a)) != txt:
+                    res.violation("C14", "pipeline-view-text", "%s mode step %d: pipeline view shows %r for address %s, listing says %r" % (mode, k, txt, a, lst.get(int(a))), case)
+                    return
+    res.nontrivial(h64(case))
+
+
 # --------------------------------------------------------------------------------------- driver
 
 
@@ -551,6 +622,8 @@ def run_case(prop, case, res):
         run_rt_case(case, res)
     elif k == "doc":
         run_doc(res)
+    elif k == "outlets":
+        run_outlets_case(case, res)
 
 
 def run_shard(spec, res):
@@ -629,6 +702,24 @@ def run_shard(spec, res):
             res.evaluations += 1
             if it < 1:
                 res.sample(case["instrs"][:6], 2)
+    elif k == "outlets":
+        from ..gen import progs as G
+
+        for it in range(spec["n"]):
+            if rng.random() < 0.5:
+                prog, regs = G.soup_program(rng, rng.randint(1, 16), aligned=rng.random() < 0.5), G.soup_regs(rng, bad_ecall=0.5)
+                if rng.random() < 0.4:
+                    regs["31"] = rng.choice([0, 0x3FFC, 0x3FC0])
+            else:
+                prog, regs = G.structured_program(rng, size=rng.randint(3, 20), aligned=True, faults=True)
+            if rng.random() < 0.3:
+                prog = prog + [{"m": "addi", "rd": 17, "rs1": 0, "imm": 7}, {"m": "ecall"}]  # failing ecall as the last instruction
+            patches = [(rng.randrange(len(prog)), G._alu(rng, [1, 2, 3])) for _ in range(rng.choice([0, 1, 2]))] if prog else []
+            case = {"kind": "outlets", "prog": prog, "regs": regs, "mem": G.init_mem(rng), "patches": patches}
+            guarded(run_case, prop, case, res)
+            res.evaluations += 1
+            if it < 1:
+                res.sample(case, 2)
     elif k == "rt_regs":
         # all 32 registers in every operand position for every mnemonic (others random)
         from architecture_simulator.isa.riscv.rv32i_instructions import instruction_map
